@@ -63,7 +63,7 @@ func init() {
 		p := c.P
 		c.Explain = "Structural conditions of the state commitment decided from SSA terms, CFG and field-store ownership: (formula) contract commitment = Pedersen(Pedersen(Pedersen(classHash, storageRoot), nonce), 0), class leaf = Poseidon(\"CONTRACT_CLASS_LEAF_V0\", casmHash), state commitment = 0 | contractRoot (classRoot = 0 ∧ version < 0.14.0) | Poseidon(\"STARKNET_STATE_V0\", contractRoot, classRoot), identical in both state backends; " +
 			"(hash-family) every trie role (contract, contract storage → Pedersen; class → Poseidon; temp-trie slots) is constructed with its family in both backends; (root-auth) Update/Revert compare the root before mutating and before persisting, and Finalise takes old/new root from Commitment() around Update; (trie2-dirty) every node built or copied by trie2 insert/delete carries fresh dirty flags; " +
-			"(dirty-set) the legacy trie's dirty-node set only grows until Hash() has recomputed, and rootKey changes only through setRootKey; (commit-nodes) the node set returned by trie2 Commit() is propagated on every path (deleted nodes are flushed). Not decided: that either trie computes the Merkle-Patricia root of its key/value set; order/restart independence."
+			"(dirty-set) the legacy trie's dirty-node set only grows until Hash() has recomputed, and rootKey changes only through setRootKey; (commit-nodes) the node set returned by trie2 Commit() is propagated on every path (deleted nodes are flushed); (resolve-before-merge) in trie2 whenever a child is found to be an unresolved hash node it is resolved before the function returns a restructured node — an unresolved sibling cannot be merged into one edge, the resulting shape hashes to a different root; (commit-before-commitment) a contract's leaf commitment is computed only after its storage trie was committed in the same unit of work (the storage root kept in the record is not authoritative). Not decided: that either trie computes the Merkle-Patricia root of its key/value set; order/restart independence."
 		c01Formula(c)
 		c01HashFamily(c)
 		// root-auth (Update half) + Finalise roots
@@ -110,6 +110,8 @@ func init() {
 		c01Trie2Dirty(c)
 		c01DirtySet(c)
 		c01CommitNodes(c)
+		c01ResolveBeforeMerge(c)
+		c01CommitBeforeCommitment(c)
 	})
 }
 
@@ -553,4 +555,94 @@ func usedAfter(after ssa.Instruction, v ssa.Value, b *ssa.BasicBlock) bool {
 		}
 	}
 	return false
+}
+
+
+// c01ResolveBeforeMerge: every commaok type test for *trienode.HashNode in trie2's mutating walkers leads, on its true
+// branch, through resolveNode before any return.
+func c01ResolveBeforeMerge(c *Ctx) {
+	p := c.P
+	n := 0
+	for _, fn := range p.sortedFuncs() {
+		if pkgRelOf(fn) != "core/trie2" || fn.Origin() != nil || strings.HasSuffix(p.Pos(fnPos(fn)), "_test.go") {
+			continue
+		}
+		if fn.Signature.Recv() == nil || recvName(fn.Signature.Recv().Type()) != "Trie" {
+			continue
+		}
+		if fn.Name() != "delete" && fn.Name() != "insert" && !strings.HasPrefix(fn.Name(), "zzVerifFixtureC01Resolve") {
+			continue
+		}
+		allInstrs(fn, func(in ssa.Instruction) {
+			ta, ok := in.(*ssa.TypeAssert)
+			if !ok || !ta.CommaOk {
+				return
+			}
+			nt := namedOf(ta.AssertedType)
+			if nt == nil || nt.Obj().Name() != "HashNode" {
+				return
+			}
+			// the branch on ok
+			for _, r := range *ta.Referrers() {
+				ex, isEx := r.(*ssa.Extract)
+				if !isEx || ex.Index != 1 {
+					continue
+				}
+				for _, r2 := range *ex.Referrers() {
+					iff, isIf := r2.(*ssa.If)
+					if !isIf {
+						continue
+					}
+					n++
+					trueSucc := iff.Block().Succs[0]
+					okp := false
+					for _, s := range sitesOf(fn) {
+						if s.Callee != nil && s.Callee.Name() == "resolveNode" && (trueSucc == s.Block() || trueSucc.Dominates(s.Block())) {
+							if everyPathPassesFromBlock(trueSucc, s.Block()) {
+								okp = true
+							}
+						}
+					}
+					c.check(okp, "resolve-before-merge", qname(fn)+": child is a HashNode", p.Pos(posOf(in, fn)), "resolved on every path before the function returns", "a child known to be an unresolved hash node can reach a return without resolveNode: the node above it is restructured around an opaque hash (an edge that should be merged stays a separate node and the root differs from the root of the same key/value set)")
+				}
+			}
+		})
+	}
+	if n < 1 {
+		c.und("resolve-before-merge", "trie2.Trie.delete", "", "no HashNode type test found in the mutating walkers")
+	}
+	c.needFixture("resolve-before-merge")
+}
+
+// c01CommitBeforeCommitment: in core/state, every call of (*stateObject).commitment is dominated by (*stateObject).commit
+// on the same object within the same function/closure.
+func c01CommitBeforeCommitment(c *Ctx) {
+	p := c.P
+	n := 0
+	for _, fn := range p.sortedFuncs() {
+		if pkgRelOf(fn) != "core/state" || fn.Origin() != nil || strings.HasSuffix(p.Pos(fnPos(fn)), "_test.go") {
+			continue
+		}
+		ss := sitesOf(fn)
+		for _, s := range ss {
+			if s.Callee == nil || s.Callee.Name() != "commitment" || s.Callee.Signature.Recv() == nil || recvName(s.Callee.Signature.Recv().Type()) != "stateObject" {
+				continue
+			}
+			if rootOf(fn).Name() != "commit" && !strings.HasPrefix(rootOf(fn).Name(), "zzVerifFixture") {
+				continue // read-only uses (e.g. proofs) work on committed objects
+			}
+			n++
+			okd := false
+			for _, t := range ss {
+				if t.Callee != nil && t.Callee.Name() == "commit" && t.Callee.Signature.Recv() != nil && recvName(t.Callee.Signature.Recv().Type()) == "stateObject" &&
+					sameVal(t.Args()[0], s.Args()[0]) && dominatesInstr(t.Instr, s.Instr) {
+					okd = true
+				}
+			}
+			c.check(okd, "commit-before-commitment", qname(fn)+" → stateObject.commitment", p.Pos(s.Pos()), "the object's storage trie was committed first in the same unit of work", "a contract leaf commitment is taken without committing the object's storage trie first: the storage root in the record may be stale (records written by the head-state migration carry a zero root) and the state root is wrong")
+		}
+	}
+	if n < 1 {
+		c.und("commit-before-commitment", "core/state.State.commit", "", "no stateObject.commitment call found in commit")
+	}
 }
